@@ -48,6 +48,9 @@ DEVS = (
     # streaming chunk sizes: a prediction chunk may then hold no PSM of some fold, a training read chunk cuts spectra
     + [("pred_chunk", c) for c in (3, 10)]
     + [("read_chunk", 7)]
+    # history: the SAME dataset objects were brewed before (through shallow copies, as brew consumes the object it is
+    # given) with these fold counts; the observed run works on further shallow copies
+    + [("history", h) for h in ((4,), (2, 5))]
 )
 
 
@@ -96,6 +99,16 @@ def run_brew(cfg, frames, paths, labels_override=None):
         ch["CHUNK_SIZE_READ_ALL_DATA"] = cfg["read_chunk"]
     if not cfg.get("_e2"):
         set_chunks(**ch)
+    if cfg.get("history"):
+        import copy
+
+        for f in cfg["history"]:
+            try:
+                mokapot.brew([copy.copy(d) for d in dsets], model=make_model(cfg["est"], first_only=True), test_fdr=0.5, folds=f,
+                             max_workers=1, rng=cfg["seed"] + 1, subset_max_train=cap)
+            except (RuntimeError, ValueError):
+                pass  # an explicit refusal of the earlier analysis is not the observed run's business
+        dsets = [copy.copy(d) for d in dsets]
     return mokapot.brew(dsets, model=model, test_fdr=0.5, folds=cfg["folds"], max_workers=cfg["workers"],
                         rng=cfg["seed"], subset_max_train=cap), cap
 
